@@ -322,7 +322,7 @@ def main():
     # corpus: the two recorded findings, and clean / single / repeated corruption
     base9 = ["G1 X%d ; c%d" % (i, i) for i in range(8)] + ["; only comment", "G1 Y1"]
     scen.append(("corpus-m110", base9, dict(boot=1, corrupt={0}, react=lambda i: 0.002, gap=0.0)))
-    scen.append(("corpus-tail", base9, dict(boot=0, corrupt={4}, corrupt_first_of={8}, react=lambda i: 0.002, gap=0.05)))
+    scen.append(("corpus-tail", base9, dict(boot=0, corrupt={4}, corrupt_first_of={8}, react=lambda i: 0.002, gap=0.25)))
     scen.append(("corpus-clean", base9, dict(boot=1, corrupt=set(), react=lambda i: 0.004, gap=0.0)))
     scen.append(("corpus-repeat", base9 + ["G1 X%d" % i for i in range(20, 28)], dict(boot=0, corrupt={5, 6}, react=lambda i: 0.002, gap=0.0)))
     scen.append(("corpus-repeat3", base9 + ["G1 X%d" % i for i in range(20, 28)], dict(boot=1, corrupt={7, 8, 9}, react=lambda i: 0.003, gap=0.0)))
